@@ -5,6 +5,7 @@ import (
 	"context"
 	"fmt"
 	"net/http"
+	"net/http/httptest"
 	"net/url"
 	"runtime"
 	"sort"
@@ -213,15 +214,48 @@ func paramStorm(run *kit.Run, forward bool) {
 			}
 		}))
 	}
+	// a middleware of the redirect scope that takes its time, as a logging or tracing one does
+	opts = append(opts, fox.WithMiddlewareFor(fox.RedirectHandler, func(next fox.HandlerFunc) fox.HandlerFunc {
+		return func(c fox.Context) {
+			runtime.Gosched()
+			next(c)
+			runtime.Gosched()
+		}
+	}))
 	f, err := fox.New(opts...)
 	if err != nil {
 		run.Inconclusive("fox.New: %v", err)
 		return
 	}
 	var bad atomic.Pointer[string]
-	var served atomic.Int64
+	var served, keptChecked, redirects atomic.Int64
+	// copies of the context that outlive their handler (handed to a background job, as Clone is documented for): a
+	// late reader goes through them while the requests go on
+	kept := make(chan fox.Context, 512)
+	var kwg sync.WaitGroup
+	kwg.Add(1)
+	go func() {
+		defer kwg.Done()
+		for cl := range kept {
+			runtime.Gosched()
+			var sb strings.Builder
+			for p := range cl.Params() {
+				sb.WriteString(p.Key + "=" + p.Value + ";")
+			}
+			keptChecked.Add(1)
+			if want := cl.Header("X-Want"); sb.String() != want {
+				msg := fmt.Sprintf("a Clone of the context of %s%s, read after its handler returned, exposes params %q; the request encodes %q", cl.Host(), cl.Path(), sb.String(), want)
+				bad.CompareAndSwap(nil, &msg)
+			}
+		}
+	}()
 	check := func(c fox.Context) {
-		served.Add(1)
+		if n := served.Add(1); n%8 == 0 {
+			select {
+			case kept <- c.Clone():
+			default:
+			}
+		}
 		var sb strings.Builder
 		for p := range c.Params() {
 			sb.WriteString(p.Key + "=" + p.Value + ";")
@@ -261,6 +295,7 @@ func paramStorm(run *kit.Run, forward bool) {
 	for _, s := range shapes {
 		f.MustHandle("GET", s.pattern, check)
 	}
+	f.MustHandle("GET", "/rd/{id}/", check, fox.WithRedirectTrailingSlash(true))
 	workers := 4 * runtime.GOMAXPROCS(0)
 	var stop atomic.Bool
 	var wg, wwg sync.WaitGroup
@@ -288,8 +323,20 @@ func paramStorm(run *kit.Run, forward bool) {
 				reqs[i] = &http.Request{Method: "GET", Host: h, URL: &url.URL{Path: p}, Header: http.Header{"X-Want": {want}}, Proto: "HTTP/1.1", ProtoMajor: 1, ProtoMinor: 1}
 			}
 			w := &flipW{h: http.Header{}}
+			rdReq := &http.Request{Method: "GET", URL: &url.URL{Path: "/rd/" + a, RawQuery: "g=" + b}, Header: http.Header{}, Proto: "HTTP/1.1", ProtoMajor: 1, ProtoMinor: 1}
 			for i := 0; i < iters && bad.Load() == nil; i++ {
 				rq := reqs[(i+g)%len(reqs)]
+				if i%13 == 6 {
+					// a trailing-slash redirect: the reply belongs to this request (its own path and query in Location)
+					rw := httptest.NewRecorder()
+					f.ServeHTTP(rw, rdReq)
+					redirects.Add(1)
+					if loc := rw.Header().Get("Location"); rw.Code != http.StatusMovedPermanently || !strings.Contains(loc, a+"/") || !strings.HasSuffix(loc, "?g="+b) {
+						msg := fmt.Sprintf("GET /rd/%s?g=%s (route /rd/{id}/ redirects) answered status %d Location %q", a, b, rw.Code, loc)
+						bad.CompareAndSwap(nil, &msg)
+					}
+					continue
+				}
 				if i%5 == 4 {
 					if rte, cc, _ := f.Lookup(nil, rq); rte != nil {
 						if i%10 == 4 {
@@ -329,6 +376,10 @@ func paramStorm(run *kit.Run, forward bool) {
 	wg.Wait()
 	stop.Store(true)
 	wwg.Wait()
+	close(kept)
+	kwg.Wait()
+	run.Count("param_storm_clones_read_after_their_handler", keptChecked.Load())
+	run.Count("param_storm_redirects_checked", redirects.Load())
 	if m := bad.Load(); m != nil {
 		run.Violate(fmt.Sprintf("param-storm|forward=%t", forward), "a request was served with parameters that are not its own: "+*m, map[string]any{"workers": workers, "seed": run.Seed()})
 	}
